@@ -451,6 +451,9 @@ def _normalize_python_version_specifier(marker: MarkerExpression) -> BaseSpecifi
     splitted = [p.strip() for p in value.split(".")]
     if len(splitted) > 2 or "*" in splitted:
         return marker.specifier
+    if len(splitted) == 1 and op != "~=":
+        # python_version "3" is python_version "3.0"
+        splitted.append("0")
     if op in ("==", "!="):
         splitted.append("*")
     elif op == ">":
